@@ -280,6 +280,16 @@ Theorem C18_uexp_judgement_transfer : forall ex ey ez steps o, C18c.agree (C18c.
 Proof. exact JudgeC18P.C18_uexp_transfer. Qed.
 
 
+(* ---- app stage: the executable judgement of coq/Check is sound for the model on every scenario of the profile, and transfers
+   to every trace that agrees with the model's run ---- *)
+From BEI Require Check.C18a Proofs.JudgeC18AppP.
+Theorem C18_app_judgement_sound : forall sc, JudgeC18AppP.profile_C18b sc = true -> C18a.ok_a (sc, App.trace (App.run sc)) = 0%Z.
+Proof. exact JudgeC18AppP.C18_app_judgement_sound. Qed.
+
+Theorem C18_app_judgement_transfer : forall sc t, JudgeC18AppP.profile_C18b sc = true -> App.agree_full (sc, t) = true -> C18a.ok_a (sc, t) = 0%Z.
+Proof. exact JudgeC18AppP.C18_app_judgement_transfer. Qed.
+
+
 Print Assumptions C18_numeric_dim.
 Print Assumptions C18_negate_axes.
 Print Assumptions C18_negate_dim.
@@ -335,3 +345,5 @@ Print Assumptions C18_accumulate_running_sum.
 Print Assumptions C18_judgement_sound.
 Print Assumptions C18_judgement_transfer_exact.
 Print Assumptions C18_uexp_judgement_transfer.
+Print Assumptions C18_app_judgement_sound.
+Print Assumptions C18_app_judgement_transfer.
